@@ -183,7 +183,7 @@ impl<const H: usize> Reader<H> {
     /// If the data is compressed, it will be automatically decompressed.
     pub fn read_record(&mut self, offset: u64, hint: ReadHint) -> Result<Record<'_, H>, ReadError> {
         let flushed_offset = self.flushed_offset.load();
-        if offset + RECORD_HEAD_SIZE as u64 > flushed_offset {
+        if flushed_offset.saturating_sub(offset) < RECORD_HEAD_SIZE as u64 {
             return Err(ReadError::OutOfBounds {
                 offset,
                 length: RECORD_HEAD_SIZE,
